@@ -397,6 +397,82 @@ func (c *checker) plugin(p pluginSpec, wrapped bool) {
 	}
 }
 
+// ---- schemas built with nil collections ----------------------------------------------------------------
+
+// The constructors accept nil for every collection argument (no properties, no outputs, no steps, no signals);
+// such schemas must describe themselves like their empty-but-non-nil twins.
+type nilCase struct {
+	Name     string
+	Describe func() (any, error)
+	Rebuild  func(d any) (interface{ SelfSerialize() (any, error) }, error)
+}
+
+func nilCases() []nilCase {
+	scopeRebuild := func(d any) (interface{ SelfSerialize() (any, error) }, error) { return schema.UnserializeScope(d) }
+	schemaRebuild := func(d any) (interface{ SelfSerialize() (any, error) }, error) { return schema.UnserializeSchema(d) }
+	in := func() *schema.ScopeSchema { return ukit.BuildScope(ukit.WrapScope(ukit.MapObjA("In"))) }
+	return []nilCase{
+		{"object with nil properties", func() (any, error) {
+			return schema.NewScopeSchema(schema.NewObjectSchema("Marker", nil)).SelfSerialize()
+		}, scopeRebuild},
+		{"object with empty properties", func() (any, error) {
+			return schema.NewScopeSchema(schema.NewObjectSchema("Marker", map[string]*schema.PropertySchema{})).SelfSerialize()
+		}, scopeRebuild},
+		{"scope with a second object with nil properties", func() (any, error) {
+			return schema.NewScopeSchema(schema.NewObjectSchema("Root", map[string]*schema.PropertySchema{
+				"m": schema.NewPropertySchema(schema.NewRefSchema("Marker", nil), nil, false, nil, nil, nil, nil, nil),
+			}), schema.NewObjectSchema("Marker", nil)).SelfSerialize()
+		}, scopeRebuild},
+		{"plugin schema with nil steps", func() (any, error) { return schema.NewSchema(nil).SelfSerialize() }, schemaRebuild},
+		{"plugin schema with empty steps", func() (any, error) { return schema.NewSchema(map[string]*schema.StepSchema{}).SelfSerialize() }, schemaRebuild},
+		{"step with nil outputs and signals", func() (any, error) {
+			return schema.NewSchema(map[string]*schema.StepSchema{"s": schema.NewStepSchema("s", in(), nil, nil, nil, nil)}).SelfSerialize()
+		}, schemaRebuild},
+		{"step with empty outputs and signals", func() (any, error) {
+			return schema.NewSchema(map[string]*schema.StepSchema{"s": schema.NewStepSchema("s", in(), map[string]*schema.StepOutputSchema{},
+				map[string]*schema.SignalSchema{}, map[string]*schema.SignalSchema{}, nil)}).SelfSerialize()
+		}, schemaRebuild},
+		{"list and map with nil bounds inside an object", func() (any, error) {
+			return schema.NewScopeSchema(schema.NewObjectSchema("Root", map[string]*schema.PropertySchema{
+				"l": schema.NewPropertySchema(schema.NewListSchema(schema.NewStringSchema(nil, nil, nil), nil, nil), nil, false, nil, nil, nil, nil, nil),
+				"e": schema.NewPropertySchema(schema.NewStringEnumSchema(map[string]*schema.DisplayValue{"a": nil}), nil, false, nil, nil, nil, nil, nil),
+			})).SelfSerialize()
+		}, scopeRebuild},
+	}
+}
+
+func (c *checker) nilCase(nc nilCase) {
+	c.res.Evaluations++
+	c.guard(nc.Name, func() {
+		d, err := nc.Describe()
+		if err != nil {
+			c.fail("SelfSerialize fails for a schema built through the public constructors with nil / empty collections", nc.Name+": "+err.Error())
+			return
+		}
+		c.res.Nontrivial++
+		for _, v := range vias {
+			d2, err := v.F(d)
+			if err != nil {
+				c.fail("self-description does not survive "+v.Name, nc.Name+": "+err.Error())
+				continue
+			}
+			rebuilt, err := nc.Rebuild(d2)
+			if err != nil {
+				c.fail("the SDK rejects its own self-description ("+v.Name+")", nc.Name+": "+err.Error())
+				continue
+			}
+			dd, err := rebuilt.SelfSerialize()
+			if err != nil {
+				c.fail("rebuilt schema cannot describe itself ("+v.Name+")", nc.Name+": "+err.Error())
+				continue
+			}
+			if !ukit.Equiv(canon(d), canon(dd)) {
+				c.fail("describe -> rebuild -> describe is not a fixed point ("+v.Name+")", fmt.Sprintf("%s\nfirst:  %s\nsecond: %s", nc.Name, ukit.Show(canon(d)), ukit.Show(canon(dd))))
+			}
+		}
+	})
+}
+
 func main() {
 	ux.Main(ux.Harness{
 		Property:   "C09",
@@ -409,6 +485,9 @@ func main() {
 			}
 			for i := range plugins() {
 				out = append(out, batch{"plugin", i})
+			}
+			for i := range nilCases() {
+				out = append(out, batch{"nil", i})
 			}
 			return out
 		},
@@ -424,6 +503,9 @@ func main() {
 				if b.Idx%97 == 0 {
 					res.Samples = append(res.Samples, map[string]any{"scope": spec.String(), "evaluations": res.Evaluations})
 				}
+			} else if b.Kind == "nil" {
+				nc := nilCases()[b.Idx]
+				(&checker{res: &res, name: nc.Name, rp: replay{"nil", nil, b.Idx}}).nilCase(nc)
 			} else {
 				p := plugins()[b.Idx]
 				c := &checker{res: &res, name: "plugin " + p.Name, rp: replay{"plugin", nil, b.Idx}}
@@ -440,13 +522,16 @@ func main() {
 			var res ux.Result
 			if r.Kind == "scope" {
 				(&checker{res: &res, name: r.Spec.String(), rp: r}).scope(r.Spec)
+			} else if r.Kind == "nil" {
+				nc := nilCases()[r.Idx]
+				(&checker{res: &res, name: nc.Name, rp: r}).nilCase(nc)
 			} else {
 				p := plugins()[r.Idx]
 				(&checker{res: &res, name: "plugin " + p.Name, rp: r}).plugin(p, false)
 			}
 			return res.Findings
 		},
-		Rule: "every spec of U_2 wrapped as a scope (all kinds, units, enums with display names, defaults, presence rules, disabled properties, nested scopes, recursive references) plus a display/unenforced-id scope: d = SelfSerialize; for each of {direct, CBOR round trip, YAML round trip}: rebuilt = UnserializeScope(d') (plus DescribeScope().Unserialize + ApplySelf for the behaviour comparison), d2 = rebuilt.SelfSerialize must equal d, and rebuilt must agree with the original on accept/reject, unserialized value (map-based schemas) and serialized form for every raw value of V(spec); every one of those scopes also as input, output, signal handler and signal emitter of a one-step plugin rebuilt from a real hello message by Client.ReadSchema (description fixed point, behaviour of the input); 3 whole plugin schemas (1-2 steps, several outputs, signal handlers and emitters with recursive and one-of scopes) rebuilt through UnserializeSchema and through a real hello message read by Client.ReadSchema, with the same comparison for every input, output and signal data scope; non-trivial = schemas that described themselves",
+		Rule: "every spec of U_2 wrapped as a scope (all kinds, units, enums with display names, defaults, presence rules, disabled properties, nested scopes, recursive references) plus a display/unenforced-id scope: d = SelfSerialize; for each of {direct, CBOR round trip, YAML round trip}: rebuilt = UnserializeScope(d') (plus DescribeScope().Unserialize + ApplySelf for the behaviour comparison), d2 = rebuilt.SelfSerialize must equal d, and rebuilt must agree with the original on accept/reject, unserialized value (map-based schemas) and serialized form for every raw value of V(spec); every one of those scopes also as input, output, signal handler and signal emitter of a one-step plugin rebuilt from a real hello message by Client.ReadSchema (description fixed point, behaviour of the input); 8 schemas built with nil or empty collections (no properties, no steps, no outputs / signals); 3 whole plugin schemas (1-2 steps, several outputs, signal handlers and emitters with recursive and one-of scopes) rebuilt through UnserializeSchema and through a real hello message read by Client.ReadSchema, with the same comparison for every input, output and signal data scope; non-trivial = schemas that described themselves",
 		Assumptions: []string{
 			"descriptions are compared after CBOR normalisation (dynamic Go types of numbers and maps differ by transport)",
 			"schemas referring to foreign namespaces are excluded (they cannot be linked from their own description alone)",
